@@ -1,4 +1,59 @@
 import XPathV.Model.Api
-/-! # Property C06 — theorems (placeholder header; filled in below) -/
+import XPathV.Lemmas.Facts
+/-!
+# C06 — Compile is total: exactly one of (expr, error); deep nesting is an error, not a stack overflow
+-/
 namespace XPathV.Theorems.C06
+open XPathV XPathV.Model XPathV.Facts
+
+/-- T0 (F9): every recursive cycle of the call graph reachable from `build` passes through a
+function that counts and limits the nesting depth (after deleting the guard functions' outgoing
+edges no cycle is left), except recursion over an already built — hence depth-limited — query tree.
+The pinned tree failed this with `[parser.parseSequence, parser.parseStep]`. -/
+theorem cycles_guarded : cyclesGuarded Generated.unguardedCompileCycles = true := by decide
+
+/-- T0 (F9, F12): the guards and their limits -/
+theorem guards_present :
+    Generated.guards.any (fun g => g.func == "parser.parseExpression" && g.limit == 200) = true ∧
+    Generated.guards.any (fun g => g.func == "parser.parseSequence" && g.limit == 200) = true ∧
+    Generated.guards.any (fun g => g.func == "builder.processNode" && g.limit == 1024) = true ∧
+    Generated.parseDepthLimit = some 200 ∧ Generated.buildDepthLimit = some 1024 := by decide
+
+/-- T0 (F10): every `panic` reachable during compilation carries a `string` or an `error`, and
+the `recover` in `build` has arms for both plus a default, so conversion to `error` is total -/
+theorem panics_become_errors : panicTypesOk Generated.compilePanicSites = true ∧
+    Generated.recoverArms = ["string", "error", "default"] := by decide
+
+/-- T0 (F15): a nil query is turned into an error by Compile/CompileWithNS; MustCompile
+substitutes the no-op query, so it never returns nil -/
+theorem nil_query_checked : Generated.compileNilCheck = [("Compile", true), ("CompileWithNS", true)] ∧
+    Generated.mustCompileRecoversToNop = true := by decide
+
+/-- the model returns exactly one of (plan, error), and an accepted plan is never the nil query -/
+theorem C06_exactly_one (cc : CompileCfg) (ns : Option (List (String × String))) (text : List Char) :
+    (∃ p, compile cc ns text = .ok p ∧ p ≠ .nil) ∨ (∃ e, compile cc ns text = .error e) := by
+  unfold compile
+  split
+  · exact Or.inr ⟨_, rfl⟩
+  · split
+    · exact Or.inr ⟨_, rfl⟩
+    · split
+      · exact Or.inr ⟨_, rfl⟩
+      · rename_i o _
+        by_cases h : o.q = .nil
+        · simp [h]
+        · simp only [beq_iff_eq, h, ↓reduceIte]
+          exact Or.inl ⟨o.q, rfl, h⟩
+
+/-- the parser's depth counter never exceeds the regenerated limit: beyond it the result is the
+`tooComplex` error (one instance: parenthesised step sequences, the recursion the pinned tree left
+unguarded) -/
+theorem sequence_depth_guarded (f : Nat) (cfg : PCfg) (inp : Ast) (st : PState) (h : st.d + 1 > cfg.depthLimit) :
+    parseSequence (f+1) cfg inp st = .error .tooComplex := by
+  simp [parseSequence, h]
+
+theorem expression_depth_guarded (f : Nat) (cfg : PCfg) (st : PState) (h : st.d + 1 > cfg.depthLimit) :
+    parseExpression (f+1) cfg st = .error .tooComplex := by
+  simp [parseExpression, h]
+
 end XPathV.Theorems.C06
